@@ -5,7 +5,7 @@
    change made after it is shown by the next one.  So whatever the callbacks
    do and whenever they run, the text is the layout of ONE table (the one made
    of the cells as measured), hence a rectangle with fitted columns. *)
-From Tab Require Export Model.TextPass.
+From Tab Require Export Model.TextLive.
 
 Local Open Scope nat_scope.
 
